@@ -44,6 +44,7 @@ hc::Report rep;
 hc::Options opt;
 int part_i = 0, part_n = 1;
 bool do_exh = true, do_rand = true;
+bool g_prepass = false; // shallow pre-passes of the enumeration: nothing is counted
 long long enum_nontrivial = 0; // distinct by construction (each enumerated case is visited once)
 
 char g_current[1024];
@@ -137,7 +138,7 @@ struct Tracker
     bool hit(int i, long key)
     {
         E& e = es[i];
-        e.count++;
+        if(!g_prepass) e.count++;
         return e.key < 0 || key < e.key;
     }
     void set(int i, long key, const std::string& kase, const std::string& what)
@@ -187,6 +188,8 @@ void drain_ubsan(const std::string& kase, long key)
     if(ubsan_pending.empty()) return;
     std::vector<UbsanHit> v;
     v.swap(ubsan_pending);
+    const bool pre = g_prepass;
+    g_prepass = false; // the runtime reports a location once: always count it
     for(auto& h : v)
     {
         std::string f = h.file;
@@ -195,6 +198,7 @@ void drain_ubsan(const std::string& kase, long key)
         std::string sig = (f == "sbepp.hpp" ? "ubsan:" : "harness-ubsan:") + h.kind + ":" + f + ":" + std::to_string(h.line);
         fail_str(sig, key, kase, "UBSan (secondary oracle): " + h.msg);
     }
+    g_prepass = pre;
 }
 
 // ---------------------------------------------------------------------------
@@ -1077,6 +1081,7 @@ struct Flat
             if(!fk && all_subs)
                 for(int64_t n = -nd.idx; n < static_cast<int64_t>(s) - nd.idx && !fk2; n++) fk2 = subscript(nd, n, inf2);
         });
+        if(!ubsan_pending.empty()) drain_ubsan(case_str(c), case_key(c));
         if(as) { report_assert(OP_SITE[which]); return false; }
         if(fk) { report_fk(fk, inf); return false; }
         if(fk2) report_fk(fk2, inf2);
@@ -1345,15 +1350,15 @@ struct Flat
     void visit(const Node& nd, int depth, int max_depth)
     {
         // the chain expression itself + one it[n] expression per valid n
-        const bool big = s >= 2;
-        rep.evaluations += 1 + (long)s;
+        const bool big = s >= 2 && !g_prepass;
+        if(!g_prepass) rep.evaluations += 1 + (long)s;
         if(big)
         {
             bool nt = chain_nontrivial(nd, c.e1.steps);
             enum_nontrivial += nt ? 1 : 0;
             enum_nontrivial += (nt || depth > 0) ? (long long)s : nd.idx;
         }
-        if(depth <= 2)
+        if(depth <= 2 && !g_prepass)
         {
             PNode p;
             p.nd = nd;
@@ -1381,7 +1386,7 @@ struct Flat
         bool good = step(ch, st, true);
         if(!ubsan_pending.empty()) drain_ubsan(case_str(c), case_key(c));
         if(good) visit(ch, depth + 1, max_depth);
-        else rep.evaluations += 1;
+        else if(!g_prepass) rep.evaluations += 1;
         c.e1.steps.pop_back();
     }
 
@@ -1406,12 +1411,17 @@ struct Flat
         c.has_e1 = true;
         c.all_subs = true;
         pn.clear();
+        // shallow passes first, so that findings the sanitizer reports only once per code location (UBSan) and
+        // crashes are attributed to the shortest expression; they are not counted
+        for(int md = 0; md <= max_depth; md++)
         for(uint8_t bs = OP_BEGIN; bs <= OP_END; bs++)
         {
+            g_prepass = md < max_depth;
             c.e1.base = bs;
             c.e1.steps.clear();
             Node nd;
-            if(base(nd, bs, true)) visit(nd, 0, max_depth);
+            if(base(nd, bs, true)) visit(nd, 0, md);
+            g_prepass = false;
         }
         // binary operators over all pairs (left: depth <= 2, right: depth <= pair_depth_b)
         c.all_subs = false;
